@@ -310,3 +310,84 @@ func (cx *Ctx) strAlts(v ssa.Value, at ssa.Instruction) []strAlt {
 	walk(v, fx.AtomsAt(at), "", 0)
 	return out
 }
+
+// strPartAlt is one way a string is put together: its pieces in order and the atoms that hold when it is built so.
+type strPartAlt struct {
+	Parts []strPart
+	Atoms []Atom
+	Tag   string
+}
+
+// strPartAlts expands a string built along several paths - `s := a; if c { s += b }; s += d` (a phi in the middle of
+// a concatenation), or a local assigned in both arms of a test - into its alternatives (at most 16).
+func (cx *Ctx) strPartAlts(v ssa.Value, at ssa.Instruction) []strPartAlt {
+	fx := cx.Fx
+	var rec func(v ssa.Value, depth int) []strPartAlt
+	rec = func(v ssa.Value, depth int) []strPartAlt {
+		if depth > 8 {
+			return []strPartAlt{{Parts: cx.strParts(v)}}
+		}
+		switch x := v.(type) {
+		case *ssa.BinOp:
+			if x.Op == token.ADD && isStringType(x.Type()) {
+				var out []strPartAlt
+				for _, l := range rec(x.X, depth+1) {
+					for _, r := range rec(x.Y, depth+1) {
+						if len(out) >= 16 {
+							break
+						}
+						out = append(out, strPartAlt{append(append([]strPart{}, l.Parts...), r.Parts...), append(append([]Atom{}, l.Atoms...), r.Atoms...), l.Tag + r.Tag})
+					}
+				}
+				return out
+			}
+		case *ssa.Phi:
+			var out []strPartAlt
+			for i, e := range x.Edges {
+				if e == ssa.Value(x) {
+					continue
+				}
+				ea := fx.AtomsOnEdge(x.Block().Preds[i], x.Block())
+				for _, a := range rec(e, depth+1) {
+					if len(out) >= 16 {
+						break
+					}
+					out = append(out, strPartAlt{a.Parts, append(append([]Atom{}, a.Atoms...), ea...), fmt.Sprintf("%s/%d", a.Tag, i)})
+				}
+			}
+			if len(out) > 0 {
+				return out
+			}
+		case *ssa.UnOp:
+			if x.Op == token.MUL {
+				if cell, ok := x.X.(*ssa.Alloc); ok {
+					var sts []*ssa.Store
+					for _, ref := range nonDebugRefs(cell) {
+						if st, ok := ref.(*ssa.Store); ok && st.Addr == ssa.Value(cell) {
+							sts = append(sts, st)
+						}
+					}
+					if len(sts) > 1 {
+						var out []strPartAlt
+						for i, st := range sts {
+							for _, a := range rec(st.Val, depth+1) {
+								if len(out) >= 16 {
+									break
+								}
+								out = append(out, strPartAlt{a.Parts, append(append([]Atom{}, a.Atoms...), fx.AtomsAt(st)...), fmt.Sprintf("%s/s%d", a.Tag, i)})
+							}
+						}
+						return out
+					}
+				}
+			}
+		}
+		return []strPartAlt{{Parts: cx.strParts(v)}}
+	}
+	base := fx.AtomsAt(at)
+	out := rec(v, 0)
+	for i := range out {
+		out[i].Atoms = append(append([]Atom{}, base...), out[i].Atoms...)
+	}
+	return out
+}
